@@ -80,6 +80,15 @@ class SystemW(Inference):
             # all indices in the last partition
             for index in self.epistemic_state["partition"][-1]:
                 [wcnf.append(c) for c in self.epistemic_state["nf_cnf_dict"][index]]
+            if len(self.epistemic_state["partition"]) < 2:
+                # no finite layer: all feasible worlds are equally plausible, so the
+                # query holds iff it has no feasible falsifying world
+                wcnf_f = wcnf.copy()
+                [wcnf_f.append(c) for c in self.epistemic_state["f_cnf_dict"][0]]
+                optimizer = create_optimizer(self.epistemic_state)
+                return not optimizer.minimal_correction_subsets(
+                    wcnf_f, deadline=deadline
+                )
             result = self._rec_inference(
                 wcnf, len(self.epistemic_state["partition"]) - 2, deadline
             )
